@@ -1402,6 +1402,22 @@ pub fn generate(ctx: &Ctx, prop: &str, rng: &mut Rng64, thorough: bool, index: u
             let organic = rng.chance(500);
             if organic {
                 let mut first = true;
+                // a game can come back to a position: sometimes the position itself is searched
+                // first (with several workers), then its successors, then the position again
+                if rng.chance(350) {
+                    let w1 = *rng.pick(&[2usize, 3, 4, 8]);
+                    case.searches.push(SearchSpec {
+                        fen: pos.fen(),
+                        depth: Some(depth),
+                        seed: rng.next(),
+                        entry: Entry::Sync { workers: Some(w1) },
+                        rayon_threads: w1,
+                        fresh: true,
+                        history: vec![],
+                        faults: vec![],
+                    });
+                    first = false;
+                }
                 for h in history.drain(..) {
                     let w0 = *rng.pick(&[1usize, 1, 2, 4]);
                     case.searches.push(SearchSpec {
@@ -1428,7 +1444,12 @@ pub fn generate(ctx: &Ctx, prop: &str, rng: &mut Rng64, thorough: bool, index: u
                 (Entry::Sync { workers: Some(1) }, 1 + rng.below(if thorough { 5 } else { 4 }) as u32, 1)
             };
             case.repeat = 3;
-            case.searches.push(SearchSpec { fen: p.fen(), depth: Some(depth), seed: rng.next(), entry, rayon_threads: rt, fresh: true, history: vec![], faults: vec![] });
+            // a caller that lets go of the control handle must not change what is reported
+            let mut faults = Vec::new();
+            if entry == Entry::Public && rng.chance(300) {
+                faults.push(Fault { kind: FaultKind::DropSenderAtStep, at: rng.below(12), times: 1 });
+            }
+            case.searches.push(SearchSpec { fen: p.fen(), depth: Some(depth), seed: rng.next(), entry, rayon_threads: rt, fresh: true, history: vec![], faults });
         }
         _ => unreachable!(),
     }
